@@ -798,8 +798,14 @@ def process_commandline(out: OutputBuffer, args: List[str]) -> 'AuditConf':  # p
     # Add short options to the parser
     parser.add_argument("-1", "--ssh1", action="store_true", dest="ssh1", default=False, help="force ssh version 1 only")
     parser.add_argument("-2", "--ssh2", action="store_true", dest="ssh2", default=False, help="force ssh version 2 only")
-    parser.add_argument("-4", "--ipv4", action="store_true", dest="ipv4", default=False, help="enable IPv4 (order of precedence)")
-    parser.add_argument("-6", "--ipv6", action="store_true", dest="ipv6", default=False, help="enable IPv6 (order of precedence)")
+    class IPVersionAction(argparse.Action):  # pylint: disable=too-few-public-methods
+        '''Like "store_true", but also records the order in which -4 and -6 were given (argparse itself does not), since that order is the order of precedence.'''
+        def __call__(self, parser: Any, namespace: Any, values: Any, option_string: Any = None) -> None:
+            setattr(namespace, self.dest, True)
+            namespace.ip_version_order = getattr(namespace, 'ip_version_order', []) + [self.dest]
+
+    parser.add_argument("-4", "--ipv4", action=IPVersionAction, nargs=0, dest="ipv4", default=False, help="enable IPv4 (order of precedence)")
+    parser.add_argument("-6", "--ipv6", action=IPVersionAction, nargs=0, dest="ipv6", default=False, help="enable IPv6 (order of precedence)")
     parser.add_argument("-b", "--batch", action="store_true", dest="batch", default=False, help="batch output")
     parser.add_argument("-c", "--client-audit", action="store_true", dest="client_audit", default=False, help="starts a server on port 2222 to audit client software config (use -p to change port; use -t to change timeout)")
     parser.add_argument("-d", "--debug", action="store_true", dest="debug", default=False, help="enable debugging output")
@@ -837,8 +843,13 @@ def process_commandline(out: OutputBuffer, args: List[str]) -> 'AuditConf':  # p
 
         # Set simple flags.
         aconf.client_audit = argument.client_audit
-        aconf.ipv4 = argument.ipv4
-        aconf.ipv6 = argument.ipv6
+        # Set these in the order they were given on the command line ("-64" means IPv6 takes precedence).
+        if getattr(argument, 'ip_version_order', [])[:1] == ['ipv6']:
+            aconf.ipv6 = argument.ipv6
+            aconf.ipv4 = argument.ipv4
+        else:
+            aconf.ipv4 = argument.ipv4
+            aconf.ipv6 = argument.ipv6
         aconf.level = argument.level
         aconf.list_policies = argument.list_policies
         aconf.manual = argument.manual
